@@ -83,9 +83,12 @@ def feed_parsers(ctx, s, which=None):
 
         def do_print():
             c = _print_console()
-            c.print(s, markup=False)
-            c.file.seek(0)
-            c.file.truncate()
+            # (the print options a program may pass along: none of them licenses an exception either)
+            _pc_turn[1] += 1
+            c.print(s, markup=False, justify=(None, None, "left", "full", "center", None, "right")[_pc_turn[1] % 7])
+            if hasattr(c.file, "truncate"):
+                c.file.seek(0)
+                c.file.truncate()
         out["print"] = guarded(ctx, "print_no_markup", (), do_print, wit)
     return out
 
@@ -102,13 +105,38 @@ def _console():
     return _c
 
 
+class _Sink:
+    """The least a console's file has to be: something with write() and flush() (no isatty, no encoding, no fileno)."""
+
+    def write(self, text):
+        return len(text)
+
+    def flush(self):
+        pass
+
+
+_pc_turn = [0, 0]
+
+
 def _print_console():
+    """Consoles of several kinds in rotation: "printing any string with markup disabled never raises" is promised for
+    the console a program happens to have, not for one particular configuration."""
     global _pc
     if _pc is None:
         from rich.console import Console
-        _pc = Console(file=io.StringIO(), width=20, color_system="truecolor", force_terminal=True, _environ={},
-                      legacy_windows=False)
-    return _pc
+        _pc = [Console(file=io.StringIO(), width=20, color_system="truecolor", force_terminal=True, _environ={},
+                       legacy_windows=False),
+               Console(file=io.StringIO(), width=20, _environ={}),                       # a detected non-terminal
+               Console(file=_Sink(), width=20, _environ={}),                             # a duck-typed sink
+               Console(file=io.StringIO(), width=7, color_system="standard", force_terminal=True, _environ={"TERM": "dumb"},
+                       legacy_windows=True, safe_box=True, no_color=True, highlight=False),
+               Console(file=io.StringIO(), width=20, soft_wrap=True, _environ={"NO_COLOR": "1"}),
+               # a theme of the program's own that does not inherit the default styles (the highlighter's names are
+               # then unknown: text stays unstyled, it is still printed)
+               Console(file=io.StringIO(), width=12, theme=__import__("rich.theme").theme.Theme({"mine": "bold"}, inherit=False),
+                       _environ={})]
+    _pc_turn[0] += 1
+    return _pc[_pc_turn[0] % len(_pc)]
 
 
 def wl_tokens(ctx):
